@@ -912,6 +912,7 @@ func c20SelfTest() {
 // ---------------------------------------------------------------------------------------------
 
 func c20Run(c *hx.Ctx) {
+	gx.AttachRunRule = false // this check makes detached pool calls (see gx.RunRule)
 	c20SelfTest()
 	cases, head := c20Cases(c.Thorough())
 	for i, cs := range cases {
@@ -976,6 +977,7 @@ func c20Run(c *hx.Ctx) {
 }
 
 func c20Replay(v *hx.Violation) []hx.Finding {
+	gx.AttachRunRule = false
 	var cs c20Case
 	if err := json.Unmarshal(v.Cfg, &cs); err != nil {
 		vsched.InternalError("C20 replay: %v", err)
